@@ -116,7 +116,7 @@ director {{ .Name | sanitize }} {{ .Type | printtype }} {
 	{{- end }}
 	.quorum = {{ .Quorum }}%;
 	{{- range .Backends }}
-	{ .backend = F_{{ . }}; .weight = 1; }
+	{ .backend = F_{{ . | sanitize }}; .weight = 1; }
 	{{- end }}
 }
 `,
